@@ -733,6 +733,14 @@ def override(index, rep):
         rep.check(back == col, rule, f"head-override:{col}",
                   f"override key '{col}' is stored as '{stored}' and read back as column '{back}': the override creates a new "
                   f"column instead of changing {col} (transform {transform})", loc=loc(ANIM, rd))
+    # applied once: the frame the override is written into is read afresh for this run (not a process-wide cached object)
+    from .memo import cached_result_mutations
+    files = [r for r in index.py_files("src") if r.startswith(("src/food_system/", "src/optimizer/", "src/scenarios/"))]
+    memo, findings = cached_result_mutations(index, files)
+    mine = [f for f in findings if f[0] == ANIM]
+    rep.check(not mine, rule, "head-override:written-into-this-run's-table-only",
+              "the override is written into an object that a memoised reader hands to every later run as well (applied more than once): " +
+              "; ".join(f[3] for f in mine[:2]), loc=loc(ANIM, mine[0][1]) if mine else loc(ANIM, rd))
     # the value written is the option's own value
     rep.check(norm_src(wr.value) == "int(scenario_option_copy[key])", rule, "head-override:value",
               "the stored head count is not the option's value", loc=loc(RUN, wr))
